@@ -199,6 +199,21 @@ fn do_resolve<Fd: AsFd, P: AsRef<Path>>(
                 source: err,
             })?,
     );
+
+    // openat2(2) refuses to resolve an empty path (-ENOENT), and we need to
+    // match that rather than treating it as a reference to the root.
+    if path.as_ref().as_os_str().is_empty() {
+        return Ok(PartialLookup::Partial {
+            handle: root,
+            remaining: PathBuf::new(),
+            last_error: ErrorImpl::OsError {
+                operation: "emulated empty path resolution".into(),
+                source: IOError::from_raw_os_error(libc::ENOENT),
+            }
+            .into(),
+        });
+    }
+
     let mut current = Rc::clone(&root);
 
     // Get initial set of components from the passed path. We remove components
